@@ -170,7 +170,10 @@ def shard(shard_i, nshards, payload):
     tmp = core.worker_tmpdir("c15")
     bad01 = set(payload["bad_c01"])
     s = lsp.Session(tmp)
-    uri = "file:///w/doc.st"
+    # the document's URI as editors send it: percent-encoded where the path has blanks, non-ASCII letters, '#', braces
+    uri = ["file:///w/doc.st", "file:///w/my%20project/main.st", "file:///w/pr%C3%BCfstand/d%C3%B6k.st",
+           "file:///w/a%23b%7Bc%7D.st"][shard_i % 4]
+    res.seen("uris", uri)
     version = 0
     try:
         for i in range(shard_i, payload["n"], nshards):
